@@ -32,11 +32,14 @@ func Register(p *PropertySpec) { Registry[p.ID] = p }
 // NotApplicable lists properties that are not claimed, with the reason.
 var NotApplicable = [][2]string{}
 
+// Pending: registered properties whose check is not claimed in MANIFEST.json yet.
+var Pending = map[string]bool{}
+
 // Hooks is the MANIFEST.hooks object.
 var Hooks = map[string]any{
 	"guard":            "verif",
 	"enable":           "go build tag: engines are built with `go1.26.8 test -c -tags verif` against /repo (replace directive)",
 	"baseline_off_cmd": "cd /repo && GOFLAGS=-mod=mod GOPROXY=off GOSUMDB=off go test -vet=off -count=1 -timeout 25m ./...",
-	"source_commits":   []string{},
+	"source_commits":   []string{"42fbbfe", "4e19f92", "0a22d76", "5587c8f", "d938b0a"},
 	"add_only":         true,
 }
